@@ -188,6 +188,21 @@ def one_case(ctx, a, b, c):
     w = {'a': A, 'b': B, 'c': C}
     nontrivial = any(A.values()) or any(B.values())
     ctx.seen([A, B, C], nontrivial)
+    # looking at an operand (listing its fields, printing or encoding it) before it is used leaves it the value it was:
+    # a third of the cases read their operands through the public accessors first
+    if (sum(A.values()) + sum(B.values())) % 3 == 0:
+        ctx.count('law:operands-read-before-use')
+        for x, X, nm in ((a, A, 'a'), (b, B, 'b'), (c, C, 'c')):
+            for acc in ('list_fields', 'to_json', 'to_dict', '__str__', '__repr__', 'negative_fields'):
+                try:
+                    getattr(x, acc)()
+                except Exception as e:
+                    ctx.violation(f'C15/accessor-raises:{acc}', f'{acc}() of a capacity raised {type(e).__name__}: {e}', dict(w, operand=nm))
+                    return
+            if dict(x.__dict__) != X:
+                ctx.violation('C15/reading-an-operand-changes-it', 'operands are never modified - not by listing their fields, printing or '
+                              'encoding them either', dict(w, operand=nm, now={k: repr(v)[:60] for k, v in x.__dict__.items() if X.get(k, None) != v}))
+                return
     try:
         s = a + b
         ctx.count('law:add-sub-inverse')
